@@ -27,6 +27,9 @@ import (
 	"github.com/open-telemetry/otel-arrow/pkg/otel/common/schema/update"
 	"github.com/open-telemetry/otel-arrow/pkg/otel/stats"
 	"github.com/open-telemetry/otel-arrow/pkg/record_message"
+	"go.opentelemetry.io/collector/pdata/plog"
+	"go.opentelemetry.io/collector/pdata/pmetric"
+	"go.opentelemetry.io/collector/pdata/ptrace"
 )
 
 func init() { subcommands["dict"] = runDict }
@@ -430,6 +433,53 @@ func runDictProducer(o opts, r *Rng, out *Output) {
 				}()
 				rows = append(rows, w.rows...)
 				out.AddCaseTagged("prod", map[string]any{"option": l.name, "reset_threshold": thr, "dictionary_columns_inspected": len(w.rows)}, len(w.rows) > 0 || l.limit == 0, "producer "+l.name)
+				if run > 0 {
+					continue
+				}
+				// every string column of every record unbounded at once (names, status messages, scope names and versions,
+				// schema urls, attribute keys and values, event names, trace states, units, descriptions, bodies), for each
+				// signal: small batches past the 8-bit capacity, and for the 16-bit limits large ones past 65,535
+				for sig := 0; sig < 3; sig++ {
+					sizes := []int{60, 150, 150, 150, 40}
+					own := true
+					if (l.limit == math.MaxUint16 && thr == 0.3) || (o.tier == "thorough" && l.limit >= math.MaxUint16) {
+						sizes, own = []int{200, 30000, 30000, 30000, 500}, false
+					}
+					ctx2 := map[string]any{"option": l.name, "reset_threshold": thr, "seed": o.seed, "history": "all-columns-distinct", "signal": sig, "sizes": sizes}
+					w2 := &dictWatch{evObserver: evObserver{events: map[string]string{}}, limit: l.limit, out: out, stats: stats, ctx: ctx2}
+					options2 := []cfgpkg.Option{cfgpkg.WithObserver(w2), cfgpkg.WithDictResetThreshold(thr)}
+					if l.opt != nil {
+						options2 = append(options2, l.opt)
+					}
+					func() {
+						defer func() {
+							if rec := recover(); rec != nil {
+								stats["producer_panics"]++
+							}
+						}()
+						p := arrow_record.NewProducerWithOptions(options2...)
+						defer p.Close()
+						base := 0
+						for _, n := range sizes {
+							var err error
+							switch d := distinctRich(sig, n, base, own).(type) {
+							case ptrace.Traces:
+								_, err = p.BatchArrowRecordsFromTraces(d)
+							case plog.Logs:
+								_, err = p.BatchArrowRecordsFromLogs(d)
+							case pmetric.Metrics:
+								_, err = p.BatchArrowRecordsFromMetrics(d)
+							}
+							if err != nil {
+								stats["producer_errors"]++
+							}
+							base += n
+						}
+					}()
+					stats["distinct_histories"]++
+					rows = append(rows, w2.rows...)
+					out.AddCaseTagged("prod", map[string]any{"option": l.name, "reset_threshold": thr, "history": "all-columns-distinct", "signal": sig, "dictionary_columns_inspected": len(w2.rows)}, len(w2.rows) > 0 || l.limit == 0, "producer-distinct "+l.name)
+				}
 			}
 		}
 	}
